@@ -405,8 +405,10 @@ func (ctrler *StakeCtrler) doRewardTo(delegatee *Delegatee, height int64) (*uint
 
 func (ctrler *StakeCtrler) ValidateTrx(ctx *ctrlertypes.TrxContext) xerrors.XError {
 	getDelegatee := ctrler.delegateeLedger.Get
+	checkLimit := ctrler.stakeLimiter.TestLimit
 	if ctx.Exec {
 		getDelegatee = ctrler.delegateeLedger.GetFinality
+		checkLimit = ctrler.stakeLimiter.CheckLimit
 	}
 
 	switch ctx.Tx.GetType() {
@@ -484,7 +486,7 @@ func (ctrler *StakeCtrler) ValidateTrx(ctx *ctrlertypes.TrxContext) xerrors.XErr
 			}
 		}
 		if len(ctrler.lastValidators) >= 3 {
-			if xerr := ctrler.stakeLimiter.CheckLimit(_delg, txPower); xerr != nil {
+			if xerr := checkLimit(_delg, txPower); xerr != nil {
 				return xerrors.ErrUpdatableStakeRatio.Wrap(xerr)
 			}
 		}
@@ -516,7 +518,7 @@ func (ctrler *StakeCtrler) ValidateTrx(ctx *ctrlertypes.TrxContext) xerrors.XErr
 		}
 
 		if len(ctrler.lastValidators) >= 3 {
-			if xerr := ctrler.stakeLimiter.CheckLimit(delegatee, -1*s0.Power); xerr != nil {
+			if xerr := checkLimit(delegatee, -1*s0.Power); xerr != nil {
 				return xerrors.ErrUpdatableStakeRatio.Wrap(xerr)
 			}
 		}
